@@ -14,6 +14,7 @@ import (
 	"hash/fnv"
 	"os"
 	"path"
+	"reflect"
 	"regexp"
 	"runtime"
 	"sort"
@@ -21,6 +22,8 @@ import (
 	"strings"
 	"sync"
 	"time"
+
+	"github.com/traefik/yaegi/stdlib"
 
 	"verif/fw"
 )
@@ -99,6 +102,7 @@ func (p *probeObs) cfg(pkgs []string, cp cfgParams) []byte {
 	var b strings.Builder
 	b.WriteString("SPECIFICATION " + cp.spec + "\nCONSTANTS\n")
 	fmt.Fprintf(&b, " TablePkgs = %s\n", tlaSet(pkgs))
+	fmt.Fprintf(&b, " LoggerPaths = %s\n", tlaSet(loggerPaths()))
 	fmt.Fprintf(&b, " DupPolicy = %q BarePolicy = %q BadKeyPolicy = %q PrintSink = %q\n", p.Dup, p.Bare, p.BadKey, p.PrintSink)
 	fmt.Fprintf(&b, " InitMode = %q MaxEntries = %d MaxDepth = %d SimLen = %d EdgeOnly = %s\n", cp.initMode, cp.maxEntries, cp.maxDepth, cp.simLen, strings.ToUpper(strconv.FormatBool(cp.edgeOnly)))
 	fmt.Fprintf(&b, " OpSet = %s\n IoFns = %s\n", tlaSet(cp.ops), tlaSet(cp.ioFns))
@@ -110,6 +114,55 @@ func (p *probeObs) cfg(pkgs []string, cp cfgParams) []byte {
 		b.WriteString("PROPERTIES " + cp.props + "\n")
 	}
 	return []byte(b.String())
+}
+
+// loggerPaths walks, by reflection, the type the default table binds to log.Logger: "" for the
+// value itself and one selector path (ending in a dot) per exported field, or exported niladic
+// method with one result, that leads to a value with a Fatal method (two levels).
+func loggerPaths() []string {
+	paths := []string{""}
+	v, ok := stdlib.Symbols["log/log"]["Logger"]
+	if !ok {
+		return paths
+	}
+	hasFatal := func(t reflect.Type) bool {
+		if _, ok := t.MethodByName("Fatal"); ok {
+			return true
+		}
+		if t.Kind() != reflect.Ptr && t.Kind() != reflect.Interface {
+			_, ok := reflect.PtrTo(t).MethodByName("Fatal")
+			return ok
+		}
+		return false
+	}
+	var walk func(t reflect.Type, prefix string, depth int)
+	walk = func(t reflect.Type, prefix string, depth int) {
+		if depth == 0 {
+			return
+		}
+		st := t
+		for st.Kind() == reflect.Ptr {
+			st = st.Elem()
+		}
+		if st.Kind() == reflect.Struct {
+			for i := 0; i < st.NumField(); i++ {
+				f := st.Field(i)
+				if f.IsExported() && hasFatal(f.Type) {
+					paths = append(paths, prefix+f.Name+".")
+					walk(f.Type, prefix+f.Name+".", depth-1)
+				}
+			}
+		}
+		for i := 0; i < t.NumMethod(); i++ {
+			m := t.Method(i)
+			if m.Type.NumIn() == 1 && m.Type.NumOut() == 1 && hasFatal(m.Type.Out(0)) {
+				paths = append(paths, prefix+m.Name+"().")
+			}
+		}
+	}
+	walk(v.Type(), "", 2)
+	sort.Strings(paths)
+	return paths
 }
 
 const (
